@@ -474,7 +474,17 @@ def case_profile(p: dict) -> dict:
             T, v = float(Tprof[i]), float(vprof[i])
             fp = fields.getFieldPoint(i)
             # additive out-of-equilibrium stress: the code's own contraction, evaluated in the oracle's frame
-            t30o, t33o = (0.0, 0.0) if which == "zero" else [float(np.asarray(x).reshape(-1)[0]) for x in eom.deltaToTmunu(i, fp, vmid_oracle, deltas)]
+            t30c, t33c = (0.0, 0.0) if which == "zero" else [float(np.asarray(x).reshape(-1)[0]) for x in eom.deltaToTmunu(i, fp, vmid_oracle, deltas)]
+            # ... and the oracle's own: plasma-frame tensor of the deviation T'00 = D20, T'03 = D11, T'33 = D02 (the mass enters
+            # only the transverse components), boosted with the frame velocity: T30 = g^2 [v (T'00 + T'33) + (1 + v^2) T'03],
+            # T33 = g^2 [T'33 + v^2 T'00 + 2 v T'03], times the degrees of freedom. No mass term survives in T30 and T33.
+            if which == "zero":
+                t30o, t33o = 0.0, 0.0
+            else:
+                dd = {k: (prof[k][i] if which in (k, "all") else 0.0) for k in ("D00", "D02", "D20", "D11")}
+                gm2 = 1.0 / (1.0 - vmid_oracle**2)
+                t30o = PARTICLE_DOF * gm2 * (vmid_oracle * (dd["D20"] + dd["D02"]) + (1 + vmid_oracle**2) * dd["D11"])
+                t33o = PARTICLE_DOF * gm2 * (dd["D02"] + vmid_oracle**2 * dd["D20"] + 2 * vmid_oracle * dd["D11"])
             # sum of |terms| inside deltaToTmunu (for rounding bounds only): dof * gamma_mid^2 * (4|D20| + 4|D02| + 4|D11| + 2 msq |D00|)
             on = [k for k in prof if which in (k, "all")]
             msq = 0.5 * phi[i, 0] ** 2
@@ -482,6 +492,9 @@ def case_profile(p: dict) -> dict:
             pt = Point(am, phi[i], dphi[i], c1 - t30o, c2 - t33o, dxT, extra_abs=abs(c2) + outabs)
             pts.append(pt)
             tag = f"[{which},i={i}]"
+            if which != "zero":
+                r.close("Tout30==boosted-moments" + tag, t30c, t30o, 64 * EPS * outabs + 1e-300)
+                r.close("Tout33==boosted-moments" + tag, t33c, t33o, 64 * EPS * outabs + 1e-300)
             if not (T > 0 and abs(v) < 1):
                 r.true("T>0,|v|<1" + tag, False, T=T, v=v)
                 continue
